@@ -1,4 +1,5 @@
 mod chain;
+mod clouddrv;
 mod model;
 mod sealdrv;
 mod stordrv;
@@ -54,6 +55,7 @@ fn main() {
             }
             eprintln!("replayed {n} behaviours");
         }
+        "cloud-replay" => clouddrv::main(&args),
         c if c.starts_with("task-") => taskdrv::main(&args),
         c if c.starts_with("storage-") || c.starts_with("sqlite-") => stordrv::main(&args),
         c if c.starts_with("seal-") => sealdrv::main(&args),
